@@ -64,6 +64,20 @@ def coq_case(case, obs):
     return P(L(coq_comp(c, case["comps"]) for c in case["comps"]), Z(case["end"]), N(fuel_for(case, obs)))
 
 
+def is_sparse(case):
+    return any(c.get("pubevery", 1) > 1 for c in case["comps"])
+
+
+def coq_case_sp(case, obs):
+    """case for FV.SchedSparse: (composition, publication periods, end, fuel)"""
+    return P(L(coq_comp(c, case["comps"]) for c in case["comps"]),
+             L(N(max(1, c.get("pubevery", 1))) for c in case["comps"]), Z(case["end"]), N(fuel_for(case, obs)))
+
+
+def coq_case_c01(case, obs):
+    return C("CSparse", coq_case_sp(case, obs)) if is_sparse(case) else C("CDense", coq_case(case, obs))
+
+
 OUTCOMES = {"ok": "OOk", "CircularCoupling": "OCirc", "TimeError": "OTime", "NoDataError": "ONoData"}
 
 
@@ -690,3 +704,48 @@ def gen_two_relays(rng):
     order = list(range(len(comps)))
     rng.shuffle(order)
     return {"comps": permute(comps, order), "end": scc * rng.choice([2, 3, 4])}
+
+
+def gen_sparse(rng):
+    """Sources that publish only at every p-th update (their clock runs on): read directly, through delay adapters,
+    through time interpolation, or through a pull-based relay, by consumers of various steps; dense components mixed in.
+    The driver must compare requirements with the time of the OUTPUT, not with the owner's clock."""
+    unit = rng.choice(UNITS)
+    n_src = rng.choice([1, 1, 2])
+    comps = []
+    for _ in range(n_src):
+        comps.append({"kind": "T", "start": 0, "steps": [unit * rng.choice([1, 1, 2])], "initpull": False, "nout": 1,
+                      "inputs": [], "pubevery": rng.choice([2, 3, 4, 5])})
+    if rng.random() < 0.4:
+        comps.append({"kind": "T", "start": 0, "steps": gen_steps(rng, unit), "initpull": False, "nout": 1, "inputs": []})
+    srcs = list(range(len(comps)))
+    if rng.random() < 0.4:
+        comps.append({"kind": "P", "nout": 1, "inputs": [{"src": [rng.choice(srcs[:n_src]), 0], "chain": []}]})
+        relay = len(comps) - 1
+    else:
+        relay = None
+    for _ in range(rng.choice([1, 2, 2, 3])):
+        ins = []
+        for _ in range(rng.choice([1, 1, 2])):
+            if relay is not None and not any(i["src"][0] == relay for c in comps for i in c["inputs"]) and rng.random() < 0.6:
+                ins.append({"src": [relay, 0], "chain": [["fixed", unit * rng.choice([1, 2, 3])]] if rng.random() < 0.5 else []})
+                continue
+            s0 = rng.choice(srcs)
+            r = rng.random()
+            if r < 0.35:
+                ch = []
+            elif r < 0.7:
+                ch = [["fixed", unit * rng.choice([1, 2, 3, 5])]]
+                if rng.random() < 0.3:
+                    ch.insert(rng.randrange(2), ["pass"])
+            elif r < 0.85:
+                ch = [["buf", rng.choice(["next", "prev", "linear", "step"])]]
+            else:
+                ch = [["pass"]]
+            ins.append({"src": [s0, 0], "chain": ch})
+        comps.append({"kind": "T", "start": 0, "steps": gen_steps(rng, unit), "initpull": rng.random() < 0.3, "nout": 0,
+                      "inputs": ins})
+    order = list(range(len(comps)))
+    rng.shuffle(order)
+    maxstep = max(max(c["steps"]) for c in comps if c["kind"] == "T")
+    return {"comps": permute(comps, order), "end": rng.choice([2, 3, 5, 8]) * maxstep + rng.choice([0, 1])}
